@@ -167,6 +167,9 @@ def shard(ctx):
         else:
             kind, text = 'grammar', hostile.decorate(rng, gen.text())
         check_text(rec, kind, text, full=(i % 3 == 0))
+        if i % 400 == 200:
+            # one token of 3-70 K characters
+            check_text(rec, 'longtoken', hostile.long_token(rng), full=True)
         if i % 10 == 0:
             check_interleaved(rec, text, hostile.hostile_text(rng)[1])
         elif i % 10 == 5:
